@@ -62,6 +62,7 @@ func suitePage(t *testing.T, cfg cfgT) {
 	ctx := context.Background()
 	sizesN := []int{0, 1, 2, 5, 30, 99, 100, 101, 150, 201, 250}
 	emitted := 0
+	envNo := 0
 	// internal consumers of keyset pagination: the traverser pages through the subject sets of one object#relation 1000 at
 	// a time; with 999 / 1000 / 1001 / 2003 of them every row must come back exactly once
 	for _, n := range []int{999, 1000, 1001, 2003} {
@@ -122,6 +123,11 @@ func suitePage(t *testing.T, cfg cfgT) {
 		}
 		pool.addNet(e.nid, 1)
 		n := sizesN[hr.intn(len(sizesN))]
+		bigEnv := envNo == 0 // the first environment: a table larger than any internal cap, asked for in pages of 1000 and more
+		envNo++
+		if bigEnv {
+			n = 2300
+		}
 		insert := func(k int) {
 			req := &rts.TransactRelationTuplesRequest{}
 			for i := 0; i < k; i++ {
@@ -137,6 +143,9 @@ func suitePage(t *testing.T, cfg cfgT) {
 		out.emit("reset 1 "+hx("n")+" "+hx("m")+" .", "-")
 		out.stat(fmt.Sprintf("tables.n%d", n))
 		iters := 3 + hr.intn(3)
+		if bigEnv {
+			iters = 6
+		}
 		for it := 0; it < iters; it++ {
 			// query shape
 			var pairs [][2]string
@@ -162,6 +171,10 @@ func suitePage(t *testing.T, cfg cfgT) {
 			size := sizes[hr.intn(len(sizes))]
 			if size < 0 {
 				size = 0
+			}
+			if bigEnv {
+				pairs = nil
+				size = []int{1000, 1001, 1500, 2000, 2299, 5000}[it%6]
 			}
 			grpc := hr.chance(1, 3)
 			interleave := hr.chance(1, 3)
